@@ -41,6 +41,13 @@ func verifH_C12_nsp_chain() {
 		}
 		n.Use(func(socket ServerSocket, handshake *Handshake) any {
 			ran = append(ran, idx)
+			// while the chain is running the socket is not connected yet: nothing lists it and no broadcast reaches it,
+			// even if a middleware puts it into a room
+			verifAssert(len(n.Sockets()) == 0, "a socket is not listed in the namespace before every middleware accepted it")
+			socket.Join("early")
+			n.Emit("hello")
+			n.To("early").Emit("hello")
+			verifAssert(len(w.conn.eioPacketQueue.get()) == 0, "no broadcast reaches a socket whose admission is still being decided")
 			if !rej {
 				return nil
 			}
